@@ -82,5 +82,9 @@ std::string fileAbstract(const std::string& bytes, NifFile* model, ContentIds& c
 std::string saveToString(NifFile& nif, bool optimize, bool sort);
 int loadFromString(NifFile& nif, const std::string& bytes, bool terrain = false);
 std::string samplePath(const std::string& name);
+// bytes of an input by name: a sample file, or "built:animation:<version>" - an animation file (first block a
+// NiControllerSequence, no node anywhere) built through the public API
+std::string inputBytes(const std::string& name);
+std::string builtAnimationFile(const std::string& ver);
 std::vector<std::string> sampleFiles();
 } // namespace vh
